@@ -195,6 +195,14 @@ def _canon_value(h, v):
                 h.update(np.ascontiguousarray(v[c].values.astype(float)).tobytes())
             except (TypeError, ValueError):
                 h.update(repr(list(v[c].values)).encode())
+    elif isinstance(v, dict):
+        h.update(b"M")
+        for k in sorted(v, key=str):
+            h.update(str(k).encode())
+            _canon_value(h, v[k])
+    elif hasattr(v, "__dict__") and not isinstance(v, type) and not callable(v):
+        h.update(b"J" + type(v).__name__.encode())
+        hash_obj_dict(h, v)
     else:
         h.update(b"O" + repr(v).encode())
 
